@@ -19,7 +19,10 @@ def sh(cmd, cwd, env=None, timeout=3600):
 
 def main():
     pid, k = sys.argv[1], sys.argv[2]
-    src = "/tmp/seed/benign/%s/r%s" % (pid, k)
+    a = sys.argv
+    src = a[a.index("--src") + 1] if "--src" in a else "/tmp/seed/benign/%s/r%s" % (pid, k)
+    dstdir = a[a.index("--dst") + 1] if "--dst" in a else "benign_indep"
+    ident = a[a.index("--id") + 1] if "--id" in a else "%s-r%s" % (pid, k)
     diff = os.path.join(src, "patch.diff")
     if not os.path.exists(diff):
         print("MISSING", diff); return 2
@@ -43,12 +46,12 @@ def main():
         shutil.rmtree(tmp, ignore_errors=True)
     conf = None
     if "--confirm" in sys.argv:
-        wt = "/tmp/seed/wt_" + pid
+        wt = a[a.index("--wt") + 1] if "--wt" in a else "/tmp/seed/wt_" + pid
         env = {"PYTHONPATH": wt}
         sh("git checkout -- .", wt)
-        _, d0 = sh("%s %s" % (PY, os.path.join(src, "demo.py")), wt, env, 900)
+        _, d0 = sh("%s %s 2>/dev/null" % (PY, os.path.join(src, "demo.py")), wt, env, 900)
         rc, o = sh("git apply %s" % diff, wt)
-        _, d1 = sh("%s %s" % (PY, os.path.join(src, "demo.py")), wt, env, 900)
+        _, d1 = sh("%s %s 2>/dev/null" % (PY, os.path.join(src, "demo.py")), wt, env, 900)
         _, o = sh("%s -m pytest -q -p no:cacheprovider --timeout=900 --continue-on-collection-errors 2>&1 | tail -3" % PY, wt, env)
         sh("git checkout -- .", wt)
         m = re.search(r"(\d+) passed", o)
@@ -59,12 +62,12 @@ def main():
     for c, (rc, lines) in sorted(alarms.items()):
         print("   %s exit %d: %s" % (c, rc, (lines[0][:300] if lines else "")))
     if conf and conf["same_digest"] and conf["tests_passed"] == 125 and conf["tests_failed"] == 0:
-        dst = os.path.join(ROOT, "selftest", "benign_indep", "%s-r%s" % (pid, k))
+        dst = os.path.join(ROOT, "selftest", dstdir, ident)
         os.makedirs(dst, exist_ok=True)
         for f in ("patch.diff", "demo.py", "notes.md"):
             if os.path.exists(os.path.join(src, f)):
                 shutil.copy(os.path.join(src, f), os.path.join(dst, f))
-        json.dump({"id": "%s-r%s" % (pid, k), "anchored_at_property": pid, "confirmed": conf, "alarms_when_first_run": {c: v[1][:1] for c, v in alarms.items()}},
+        json.dump({"id": ident, "anchored_at_property": pid, "confirmed": conf, "alarms_when_first_run": {c: v[1][:1] for c, v in alarms.items()}},
                   open(os.path.join(dst, "meta.json"), "w"), indent=1)
     return 1 if alarms else 0
 
